@@ -1093,9 +1093,12 @@ fn parse_deflocalkeys(
                     })
                 })
                 .and_then(|osc| {
-                    OsCode::from_u16(osc).ok_or_else(|| {
-                        anyhow_expr!(v, "Unknown number in {def_local_keys_variant}: {osc}")
-                    })
+                    // KEY_MAX itself is a sentinel, not a key: key positions are 0..KEY_MAX.
+                    OsCode::from_u16(osc)
+                        .filter(|o| usize::from(o.as_u16()) < KEYS_IN_ROW)
+                        .ok_or_else(|| {
+                            anyhow_expr!(v, "Unknown number in {def_local_keys_variant}: {osc}")
+                        })
                 })?,
             None => bail_expr!(key_expr, "Key without a number in {def_local_keys_variant}"),
         };
